@@ -282,11 +282,22 @@ func ruleOpenAllSegs(c *Ctx) {
 func controllingIfs(fn *ssa.Function, b *ssa.BasicBlock) []*ssa.If {
 	var out []*ssa.If
 	for _, ifi := range ifsOf(fn) {
+		found := false
 		for si := range ifi.Block().Succs {
 			if edgesDominate(fn, []succEdge{{ifi.Block(), si}}, b) {
-				out = append(out, ifi)
+				found = true
 				break
 			}
+		}
+		if !found && ifi.Block() != b {
+			// control dependence proper: one side can still get to b, the other cannot (without coming back to the test)
+			ib := ifi.Block()
+			skip := func(x *ssa.BasicBlock, si int) bool { return x.Succs[si] == ib }
+			r0, r1 := reachFrom(ib.Succs[0], skip)[b], reachFrom(ib.Succs[1], skip)[b]
+			found = r0 != r1 && fn.Blocks[0] != nil && reachFrom(fn.Blocks[0], nil)[ib]
+		}
+		if found {
+			out = append(out, ifi)
 		}
 	}
 	return out
@@ -305,7 +316,21 @@ func ruleApplyAll(c *Ctx) {
 			cone[f] = true
 		}
 		seen := map[ssa.Instruction]bool{}
-		for _, op := range collectAppliers(c, root) {
+		ops := collectAppliers(c, root)
+		// the key/value index is applied through (*BPTree).Insert, a method of the main package
+		for _, f := range c.P.ModCone(root) {
+			if f.Pkg != c.P.Main || isIndexStructRecv(f) {
+				continue
+			}
+			calls(f, func(ci ssa.CallInstruction) {
+				if call, ok := ci.(*ssa.Call); ok {
+					if cal := call.Call.StaticCallee(); cal != nil && isIndexMutator(cal) && cal.Pkg == c.P.Main {
+						ops = append(ops, &applierOp{callee: cal, call: call, fn: f})
+					}
+				}
+			})
+		}
+		for _, op := range ops {
 			// the chain of call sites from the applier call up to a site that sits in a loop
 			chain := []site{{op.fn, op.call}}
 			cur := op.fn
@@ -342,13 +367,18 @@ func ruleApplyAll(c *Ctx) {
 									offender = v // a map that is not a struct field: a side table built from other records
 								}
 							}
+						case *ssa.Call:
+							// a query of the index being rebuilt (Find, Size, membership ...): what is applied would depend on what is already indexed
+							if cal := x.Call.StaticCallee(); cal != nil && !isIndexMutator(cal) && isIndexStructRecv(cal) && hasNonErrorResult(cal) {
+								offender = v
+							}
 						}
 					})
 					c.touch(st.fn)
 					if offender != nil {
 						perFn[st.fn]++
 						c.bad(fnName(st.fn), fmt.Sprintf("applier selection condition #%d depends only on the record itself", perFn[st.fn]), c.P.ipos(ifi),
-							"whether a record of a committed transaction is applied to the index depends on a side table ("+shortInstr(offender.(ssa.Instruction))+") computed from other records: records are skipped, and every operation logged between a skipped record and the one that 'supersedes' it sees a different state than at the time it was accepted")
+							"whether a record of a committed transaction is applied to the index depends on "+map[bool]string{true: "the state of the index itself", false: "a side table"}[isCallInstr(offender)]+" ("+shortInstr(offender.(ssa.Instruction))+") computed from other records: records are skipped, and every operation logged between a skipped record and the one that 'supersedes' it sees a different state than at the time it was accepted")
 					}
 				}
 			}
@@ -443,4 +473,34 @@ func ruleShortRead(c *Ctx) {
 	}
 	c.Sites += n
 	c.minInstances("RWManager.ReadAt calls in the entry decoder", n, 2)
+}
+
+
+func isCallInstr(v ssa.Value) bool { _, ok := v.(*ssa.Call); return ok }
+
+// isIndexStructRecv: a method of one of the in-memory index structures.
+func isIndexStructRecv(f *ssa.Function) bool {
+	if f.Signature.Recv() == nil {
+		return false
+	}
+	n := namedOf(f.Signature.Recv().Type())
+	if n == nil || n.Obj().Pkg() == nil {
+		return false
+	}
+	switch n.Obj().Pkg().Path() + "." + n.Obj().Name() {
+	case modPath + ".BPTree", modPath + "/ds/list.List", modPath + "/ds/set.Set", modPath + "/ds/zset.SortedSet":
+		return true
+	}
+	return false
+}
+
+
+func hasNonErrorResult(f *ssa.Function) bool {
+	res := f.Signature.Results()
+	for i := 0; i < res.Len(); i++ {
+		if !isErrorType(res.At(i).Type()) {
+			return true
+		}
+	}
+	return false
 }
